@@ -76,7 +76,7 @@ func caseLess(a, b *caseT) bool {
 }
 
 func primaryKind(k string) bool {
-	return k == "fetcher" || k == "single" || k == "valid" || k == "resigned" || k == "byzblock" || k == "framing" || k == "roundtrip" || k == "rehashed" || k == "second-claim" || k == "pol-sequence"
+	return k == "drive-on" || k == "fetcher" || k == "single" || k == "valid" || k == "resigned" || k == "byzblock" || k == "framing" || k == "roundtrip" || k == "rehashed" || k == "second-claim" || k == "pol-sequence"
 }
 
 func finish(r *report.Run, us []*unit, results []*unitResult, deaths []deathRec, machinery []string, expired bool, tier string, target int, unitsDone int) {
@@ -143,6 +143,9 @@ func finish(r *report.Run, us []*unit, results []*unitResult, deaths []deathRec,
 				// lexicographically first) failing event sequence
 				gk = fmt.Sprintf("%s|%02x|%s|%s|%s|%s", c.Reactor, c.Ch, c.Msg, "-", "*sequence*", v.Oracle)
 			}
+			if c.Kind == "drive-on" {
+				gk = fmt.Sprintf("%s|%02x|%s|%s|%s|%s", c.Reactor, c.Ch, c.Msg, c.Field, "*drive-on*", v.Oracle)
+			}
 			if c.Kind == "coupled" {
 				// a coupled group is one failure class per (message, field group, oracle): the mutation class of the
 				// signature is the one of the minimal failing case (the enumeration is exhaustive and deterministic)
@@ -159,7 +162,7 @@ func finish(r *report.Run, us []*unit, results []*unitResult, deaths []deathRec,
 			g.Peers[c.Peer] = true
 			if caseLess(c, g.Case) {
 				g.Case, g.What = c, v.What
-				if c.Kind == "coupled" || c.Kind == "fetcher" {
+				if c.Kind == "coupled" || c.Kind == "fetcher" || c.Kind == "drive-on" {
 					g.Class = c.Class
 				}
 			}
@@ -410,6 +413,9 @@ func finish(r *report.Run, us []*unit, results []*unitResult, deaths []deathRec,
 	r.Set("fetcher_states_expanded_per_unit_sum", notes["fetcher-distinct-states"])
 	r.Set("fetcher_states_with_a_stale_origin_observed", notes["fetcher-stale-origin-states"])
 	r.Set("fetcher_sequences_with_a_late_request_call", notes["fetcher-sequences-with-a-late-request-call"])
+	r.Set("drive_on_cases", notes["drive-on-cases"])
+	r.Set("drive_on_rounds_entered", notes["drive-on-rounds"])
+	r.Set("drive_on_heights_committed", notes["drive-on-heights"])
 	r.Set("gossip_routine_runs", notes["gossip-runs"])
 	r.Set("gossip_messages_sent", notes["gossip-messages-sent"])
 	r.Set("cases", cases)
@@ -473,6 +479,7 @@ func finish(r *report.Run, us []*unit, results []*unitResult, deaths []deathRec,
 			r.Require(stages[st] > 0, "the fetcher search never reached stage "+st)
 		}
 		r.Require(notes["fetcher-sequences-with-a-late-request-call"] > 50, "fewer than 50 fetcher sequences released a delayed request call")
+		r.Require(notes["drive-on-cases"] > 500 && notes["drive-on-rounds"] >= 3*notes["drive-on-cases"] && notes["drive-on-heights"] > 20, "the drive-on hardly ran")
 		r.Require(notes["fetcher-distinct-states"] > 500, "the fetcher search expanded fewer than 500 states")
 		r.Require(stages["roundtrip-ok"] >= 24, "fewer than 24 message types went through the encode/decode round trip")
 	}
